@@ -43,13 +43,19 @@ def p_C05(res, facts, tier):
 
 
 def p_C06(res, facts, tier):
-    from .rules import midi
-    n = midi.check_frame(res, facts)
-    res.floor('frame_instances', n, 30)
-    midi.check_edges_and_held(res, facts, 'C06')
-    midi.check_parser(res, facts)
-    # unsupported controller numbers are 'unsupported messages': they change nothing (shared with C18)
-    midi.check_routing(res, facts, only_other=True)
+    from .rules import midi, panic
+    from .rules.common import panic_policy
+    # functional clauses on the returning paths ...
+    with panic_policy('skip'):
+        n = midi.check_frame(res, facts)
+        res.floor('frame_instances', n, 30)
+        midi.check_edges_and_held(res, facts, 'C06')
+        # unsupported controller numbers are 'unsupported messages': they change nothing (shared with C18)
+        midi.check_routing(res, facts, only_other=True)
+    # ... and the 'never panics' clause: the dependency parser's own assertions, and every byte through the receiver
+    with panic_policy('judge'):
+        midi.check_parser(res, facts)
+    panic.check_midi_panics(res, facts)
 
 
 def p_C18(res, facts, tier):
@@ -325,7 +331,12 @@ def main(argv):
         res.extra['facts_cached'] = cached
         if getattr(facts, 'field_aliases', None):
             res.extra['renamed_private_fields_located'] = facts.field_aliases
+        from .rules import common as _common
+        _common.PANIC_POLICY[0] = 'judge' if prop == 'C17' else 'skip'
+        _common.PANICS_LEFT_TO_C17[0] = 0
         spec['fn'](res, facts, tier)
+        if _common.PANICS_LEFT_TO_C17[0]:
+            res.extra['panicking_paths_not_judged_here'] = '%d abstract path(s) end in an explicit panic / failed assertion; "no operation panics" is decided by C17 (R-PANIC), this property is decided on the returning paths' % _common.PANICS_LEFT_TO_C17[0]
     except FactsError as e:
         res.ob('FACTS', 'extraction/anchors', False, str(e), key='FACTS')
     except InterpError as e:
